@@ -48,7 +48,7 @@ def _c17_conf():
     from pwv import oracles2 as O2
     from pwv.drivers_misc import c17_post_step, continuation_oracle
     return {"profile": "generic", "oracles": [O2.judge_c17, continuation_oracle()], "post_step": c17_post_step({}),
-            "opts": {"approx_ops": False, "weights": {"measure": 2.5}}}
+            "opts": {"approx_ops": False, "weak_prefix": 0.06, "weights": {"measure": 2.5}}}
 
 
 def _c17_driver(a, col):
